@@ -37,7 +37,7 @@ def gen(rng, tier):
     out = []
     for i in range(n):
         kw = dict(fault=0.0, registry_rate=0.0, p_fault_ser=0.0, p_typed=0.15, p_tb=0.05, p_handoff=0.12, p_task=0.1,
-                  p_raise=0.2, depth=4)
+                  p_raise=0.2, depth=4, p_reseed=0.25)
         if tier == "thorough" and i % 3 == 0:
             kw.update(depth=6, width=5)
         case = progs.gen_case(rng, n_dests=1, **kw)
